@@ -121,6 +121,10 @@ DISPATCH_HIDE_SYMBOL(dispatch_queue_create_with_target, 10.12, 10.0, 10.0, 3.0);
 #if DISPATCH_COCOA_COMPAT
 void *(*_dispatch_begin_NSAutoReleasePool)(void);
 void (*_dispatch_end_NSAutoReleasePool)(void *);
+#if DISPATCH_VERIF
+void (*volatile _dispatch_verif_atomic_hook)(int phase, int op,
+		const volatile void *addr, const char *func, int line);
+#endif
 #endif
 
 #if DISPATCH_USE_THREAD_LOCAL_STORAGE
